@@ -601,3 +601,6 @@ def run(ck):
     from .common import reevaluate
     reevaluate(ck, 'C07.g', 'c09', lambda r, k: r == 'C09.a',
                'an extended frame that no longer fits the receive block is recorded as an overflow by the receive sink, never parsed truncated')
+    ck.rule('C07.h', 'a frame truncated to nothing is still a frame the receiver sees: on a serial channel frame boundaries - empty frames included - are the SLIP decoder\'s transition table (C12.e re-evaluated), so every truncation is classified (bad header encoding) and answered')
+    reevaluate(ck, 'C07.h', 'c12', lambda r, k: r == 'C12.e',
+               'regp_recv gets one frame per call from rfc1055_decode: a delimiter in NORMAL state ends a frame, whatever was delivered before')
